@@ -8,6 +8,7 @@
 From V.lib Require Import Base.
 From V.c01 Require Import C01Codec C01Model C01FileModel C01TreeProofs C01LeafProofs C01SizeProofs C01LocalProofs
   C01StableProofs C01WhyProofs C01FixProofs.
+From V.c10 Require Import C10TreeModel.
 
 (* ---------------------------------------------------------------- fuel *)
 Definition needs_with (need : mbox -> nat) (cs : list mbox) : nat :=
@@ -139,8 +140,6 @@ Proof.
     rewrite Hrep2 by lia. reflexivity.
 Qed.
 
-Definition mk_cont (n : list N) (cs : list mbox) : mbox := MCont (mkHdr n (8 + sumN (map size_box cs)) 8) cs.
-
 Lemma edts_ok_names cs cs' : map box_name cs' = map box_name cs -> edts_ok cs' = edts_ok cs.
 Proof.
   unfold edts_ok. revert cs'. induction cs as [|c t IH]; intros [|c' t'] H; try discriminate; [reflexivity|].
@@ -182,8 +181,6 @@ Proof.
   destruct (bytes_eqb n n_edts) eqn:Ee; [rewrite Hedts by reflexivity|]; cbn [negb andb]; reflexivity.
 Qed.
 
-Definition mk_leaf (l : leaf) : mbox := MLeaf (mkHdr (leaf_name l) (size_leaf l) 8) l (dflt_rsv l).
-
 (* a leaf whose decoder reads back what its encoder writes *)
 Lemma ppr_leaf l l' d b :
   lookup (leaf_name l) leaf_table = Some d -> leaf_large l = false -> lenN (leaf_name l) = 4 ->
@@ -201,4 +198,664 @@ Proof.
   rewrite <- app_assoc, header_rt by (try assumption; lia). cbn [h_size h_len h_name].
   replace (lenN (b ++ r2) + 8 <? size_leaf l) with false by (symmetry; apply N.ltb_ge; rewrite lenN_app; lia).
   cbn [andb]. rewrite Hd, Hrep, Hnm, Hsl, Hrsv. reflexivity.
+Qed.
+
+(* ---------------------------------------------------------------- the leaves the crop rebuilds *)
+Lemma rd_many_print_P {A} (p : parser A) (e : A -> list N) (P : A -> Prop) :
+  (forall a r, P a -> p (e a ++ r) = Ok (a, r)) ->
+  forall l r fuel, Forall P l -> (length l <= fuel)%nat -> rd_many fuel (lenN l) p (flat_map e l ++ r) = Ok (l, r).
+Proof.
+  intros Hp. induction l as [|a t IH]; intros r fuel HP Hf.
+  - destruct fuel; reflexivity.
+  - destruct fuel as [|f]; [cbn in Hf; lia|]. cbn [rd_many flat_map]. rewrite lenN_cons.
+    replace (1 + lenN t =? 0) with false by (symmetry; apply N.eqb_neq; lia).
+    inversion HP as [|? ? Ha Ht]; subst.
+    rewrite <- app_assoc, Hp by assumption. replace (1 + lenN t - 1) with (lenN t) by lia.
+    rewrite IH by (try assumption; cbn in Hf; lia). reflexivity.
+Qed.
+
+Lemma vf_join_lt v f : vf_join v f < 256 ^ N.of_nat 4.
+Proof. unfold vf_join, u32. change (256 ^ N.of_nat 4) with 4294967296. apply N.mod_lt. discriminate. Qed.
+Lemma vf_split v f : vf_fits v f = true -> vf_version (vf_join v f) = v /\ vf_flags (vf_join v f) = f.
+Proof.
+  unfold vf_fits. intros H. apply andb_true_iff in H. destruct H as [Hv Hf]. apply N.ltb_lt in Hv, Hf.
+  unfold vf_version, vf_flags, vf_join, u32. rewrite (N.mod_small (v * 16777216 + f)) by lia.
+  split.
+  - rewrite N.div_add_l by discriminate. rewrite N.div_small by assumption. lia.
+  - rewrite N.add_comm, N.mod_add by discriminate. now apply N.mod_small.
+Qed.
+Lemma fitsw_lt w v : fitsw w v = true -> v < 256 ^ N.of_nat w.
+Proof. unfold fitsw. apply N.ltb_lt. Qed.
+Lemma forallb_Forall {A} (f : A -> bool) l : forallb f l = true -> Forall (fun a => f a = true) l.
+Proof. intros H. apply Forall_forall. intros a Ha. exact (proj1 (forallb_forall f l) H a Ha). Qed.
+Lemma flat_len_ge {A} (e : A -> list N) (w : nat) l : (1 <= w)%nat -> (forall a, length (e a) = w) ->
+  (length l <= length (flat_map e l))%nat.
+Proof.
+  intros Hw He. induction l as [|a t IH]; [cbn; lia|]. cbn [flat_map length]. rewrite app_length, He. lia.
+Qed.
+
+Ltac split_fits H :=
+  repeat match type of H with
+         | (_ && _) = true => let H1 := fresh "Hf" in apply andb_true_iff in H; destruct H as [H H1]
+         end.
+
+Lemma ppr_stts v f es : leaf_fits (LStts v f es) = true -> size_leaf (LStts v f es) < 4294967296 ->
+  ppr (mk_leaf (LStts v f es)) (mk_leaf (LStts v f es)).
+Proof.
+  intros Hfit Hsz. cbn [leaf_fits] in Hfit. split_fits Hfit. apply N.ltb_lt in Hf0.
+  destruct (vf_split _ _ Hfit) as [Hv Hfl].
+  cbn [size_leaf] in Hsz. unfold u32 in Hsz. rewrite N.mod_small in Hsz by lia.
+  eapply (ppr_leaf _ _ dec_stts); try reflexivity.
+  - cbn [size_leaf]. unfold u32. rewrite N.mod_small by lia. lia.
+  - cbn [size_leaf]. unfold u32. rewrite N.mod_small by lia.
+    rewrite !lenN_app, !lenN_be_enc, (lenN_flat_map_const wr_pair 8) by apply lenN_wr_pair. lia.
+  - intros r2. unfold dec_stts, pbind. cbn [h_size size_leaf]. unfold u32. rewrite (N.mod_small (lenN es)) by lia.
+    rewrite <- !app_assoc. rewrite rd_enc by apply vf_join_lt.
+    rewrite rd_enc by (change (256 ^ N.of_nat 4) with 4294967296; lia).
+    rewrite N.eqb_refl. cbn [negb].
+    rewrite (rd_many_print_P rd_pair wr_pair (fun p => (fitsw 4 (fst p) && fitsw 4 (snd p)) = true)).
+    + unfold pret. now rewrite Hv, Hfl.
+    + intros [a b] r Hab. cbn [fst snd] in Hab. apply andb_true_iff in Hab. destruct Hab as [Ha Hb].
+      unfold rd_pair, wr_pair, pbind. cbn [fst snd]. rewrite <- app_assoc.
+      rewrite !rd_enc by now apply fitsw_lt. reflexivity.
+    + now apply forallb_Forall.
+    + rewrite app_length. pose proof (flat_len_ge wr_pair 8 es ltac:(lia)) as Hg.
+      assert (forall a, length (wr_pair a) = 8%nat) as H8
+        by (intros a; unfold wr_pair; now rewrite app_length, !length_be_enc).
+      specialize (Hg H8). lia.
+Qed.
+
+Lemma u32_small x : x < 4294967296 -> u32 x = x.
+Proof. intros H. unfold u32. now apply N.mod_small. Qed.
+
+Lemma ppr_tab n w v f items : leaf_fits (LTab n w v f items) = true -> size_leaf (LTab n w v f items) < 4294967296 ->
+  ppr (mk_leaf (LTab n w v f items)) (mk_leaf (LTab n w v f items)).
+Proof.
+  intros Hfit Hsz. cbn [leaf_fits] in Hfit. split_fits Hfit. apply N.ltb_lt in Hf1.
+  destruct (vf_split _ _ Hfit) as [Hv Hfl].
+  cbn [size_leaf] in Hsz. rewrite u32_small in Hsz by assumption.
+  assert (Hnw : (n = n_stco /\ w = 4%nat) \/ (n = n_stss /\ w = 4%nat) \/ (n = n_co64 /\ w = 8%nat)).
+  { apply orb_true_iff in Hf. destruct Hf as [Hf|Hf]; [apply orb_true_iff in Hf; destruct Hf as [Hf|Hf]|];
+      apply andb_true_iff in Hf; destruct Hf as [Ha Hb]; apply bytes_eqb_eq in Ha; apply Nat.eqb_eq in Hb; auto. }
+  assert (Hw : (1 <= w)%nat) by (destruct Hnw as [[_ ->]|[[_ ->]|[_ ->]]]; lia).
+  assert (Hlk : lookup n leaf_table = Some (dec_tab w)) by (destruct Hnw as [[-> ->]|[[-> ->]|[-> ->]]]; reflexivity).
+  assert (Hn4 : lenN n = 4) by (destruct Hnw as [[-> _]|[[-> _]|[-> _]]]; reflexivity).
+  eapply (ppr_leaf _ _ (dec_tab w)); try reflexivity; try assumption.
+  - cbn [size_leaf]. rewrite u32_small by assumption. lia.
+  - cbn [size_leaf]. rewrite u32_small by assumption.
+    rewrite !lenN_app, !lenN_be_enc, (lenN_flat_map_const (be_enc w) (N.of_nat w)) by (intros; apply lenN_be_enc). lia.
+  - intros r2. unfold dec_tab, pbind. cbn [h_size h_name size_leaf leaf_name]. rewrite u32_small by assumption.
+    rewrite <- !app_assoc. rewrite rd_enc by apply vf_join_lt.
+    rewrite rd_enc by (change (256 ^ N.of_nat 4) with 4294967296; lia).
+    rewrite N.eqb_refl. cbn [negb].
+    rewrite (rd_many_print_P (rd w) (be_enc w) (fun a => fitsw w a = true)).
+    + unfold pret. now rewrite Hv, Hfl.
+    + intros a r Ha. apply rd_enc. now apply fitsw_lt.
+    + now apply forallb_Forall.
+    + rewrite app_length. pose proof (flat_len_ge (be_enc w) w items Hw (length_be_enc w)). lia.
+Qed.
+
+Lemma ppr_sdtp v f es : leaf_fits (LSdtp v f es) = true -> size_leaf (LSdtp v f es) < 4294967296 ->
+  ppr (mk_leaf (LSdtp v f es)) (mk_leaf (LSdtp v f es)).
+Proof.
+  intros Hfit Hsz. cbn [leaf_fits] in Hfit. destruct (vf_split _ _ Hfit) as [Hv Hfl]. cbn [size_leaf] in Hsz.
+  eapply (ppr_leaf _ _ dec_sdtp); try reflexivity.
+  - cbn [size_leaf]. lia.
+  - cbn [size_leaf]. rewrite !lenN_app, !lenN_be_enc. lia.
+  - intros r2. unfold dec_sdtp, pbind, payload_len. cbn [h_size h_len size_leaf].
+    rewrite <- !app_assoc. rewrite rd_enc by apply vf_join_lt.
+    replace (12 + lenN es - 8 <? 4) with false by (symmetry; apply N.ltb_ge; lia).
+    replace (12 + lenN es - 8 - 4) with (lenN es) by lia. rewrite rdB_app. unfold pret. now rewrite Hv, Hfl.
+Qed.
+
+Lemma ppr_stsz v f uni num ss : leaf_fits (LStsz v f uni num ss) = true -> size_leaf (LStsz v f uni num ss) < 4294967296 ->
+  ppr (mk_leaf (LStsz v f uni num ss)) (mk_leaf (LStsz v f uni num ss)).
+Proof.
+  intros Hfit Hsz. cbn [leaf_fits] in Hfit. split_fits Hfit.
+  destruct (vf_split _ _ Hfit) as [Hv Hfl]. apply fitsw_lt in Hf1, Hf2. cbn [size_leaf] in Hsz.
+  assert (Hbody : body_leaf (LStsz v f uni num ss) (dflt_rsv (LStsz v f uni num ss)) =
+                  Ok (be_enc 4 (vf_join v f) ++ be_enc 4 uni ++ be_enc 4 num ++ flat_map (be_enc 4) ss)).
+  { cbn [body_leaf]. destruct (lenN ss =? 0) eqn:E0.
+    - apply N.eqb_eq in E0. destruct ss; [|rewrite lenN_cons in E0; lia]. cbn [flat_map]. now rewrite app_nil_r.
+    - destruct (uni =? 0); [apply N.eqb_eq in Hf0; now rewrite Hf0|discriminate]. }
+  assert (Hlen : lenN (flat_map (be_enc 4) ss) = 4 * lenN ss)
+    by (apply lenN_flat_map_const; intros; apply lenN_be_enc).
+  eapply (ppr_leaf _ _ dec_stsz (be_enc 4 (vf_join v f) ++ be_enc 4 uni ++ be_enc 4 num ++ flat_map (be_enc 4) ss));
+    try exact Hbody; try reflexivity.
+  - cbn [size_leaf]. destruct (0 <? uni); lia.
+  - cbn [size_leaf]. rewrite !lenN_app, !lenN_be_enc, Hlen.
+    destruct (uni =? 0) eqn:Eu; apply N.eqb_eq in Hf0.
+    + apply N.eqb_eq in Eu. subst uni. cbn [N.ltb N.compare]. lia.
+    + apply N.eqb_neq in Eu. replace (0 <? uni) with true by (symmetry; apply N.ltb_lt; lia). lia.
+  - intros r2. unfold dec_stsz, pbind. cbn [h_size size_leaf].
+    rewrite <- !app_assoc. rewrite rd_enc by apply vf_join_lt. rewrite !rd_enc by assumption.
+    rewrite N.eqb_refl. cbn [negb].
+    destruct (uni =? 0) eqn:Eu; apply N.eqb_eq in Hf0.
+    + rewrite <- Hf0. rewrite (rd_many_print_P (rd 4) (be_enc 4) (fun a => fitsw 4 a = true)).
+      * unfold pret. now rewrite Hv, Hfl.
+      * intros a r Ha. apply rd_enc. now apply fitsw_lt.
+      * now apply forallb_Forall.
+      * rewrite app_length. pose proof (flat_len_ge (be_enc 4) 4 ss ltac:(lia) (length_be_enc 4)). lia.
+    + destruct ss; [|rewrite lenN_cons in Hf0; lia]. cbn [flat_map app]. unfold pret. now rewrite Hv, Hfl.
+Qed.
+
+(* ctts: the (count, offset) pairs CttsBox.Encode writes *)
+Fixpoint ctts_pairs (ends offs : list N) : list (N * N) :=
+  match offs, ends with
+  | o :: ot, e0 :: ((e1 :: _) as et) => (u32 (e1 + 4294967296 - e0), o) :: ctts_pairs et ot
+  | _, _ => []
+  end.
+Lemma wr_ctts_pairs offs : forall ends, wr_ctts ends offs = flat_map wr_pair (ctts_pairs ends offs).
+Proof.
+  induction offs as [|o ot IH]; intros ends; [destruct ends; reflexivity|].
+  destruct ends as [|e0 [|e1 et]]; try reflexivity.
+  change (wr_ctts (e0 :: e1 :: et) (o :: ot))
+    with (be_enc 4 (u32 (e1 + 4294967296 - e0)) ++ be_enc 4 o ++ wr_ctts (e1 :: et) ot).
+  change (ctts_pairs (e0 :: e1 :: et) (o :: ot)) with ((u32 (e1 + 4294967296 - e0), o) :: ctts_pairs (e1 :: et) ot).
+  cbn [flat_map]. unfold wr_pair at 1. cbn [fst snd]. rewrite IH. now rewrite <- app_assoc.
+Qed.
+Lemma ctts_pairs_spec offs : forall e0 et, lenN et = lenN offs -> forallb (fitsw 4) (e0 :: et) = true ->
+  C01Model.ctts_ends e0 (ctts_pairs (e0 :: et) offs) = et /\ map snd (ctts_pairs (e0 :: et) offs) = offs /\
+  lenN (ctts_pairs (e0 :: et) offs) = lenN offs.
+Proof.
+  induction offs as [|o ot IH]; intros e0 et Hl Hf.
+  - destruct et; [now repeat split|unfold lenN in Hl; cbn [length] in Hl; lia].
+  - destruct et as [|e1 et]; [unfold lenN in Hl; cbn [length] in Hl; lia|].
+    rewrite !lenN_cons in Hl. cbn [forallb] in Hf. apply andb_true_iff in Hf. destruct Hf as [H0 Hf].
+    pose proof Hf as Hf'. cbn [forallb] in Hf'. apply andb_true_iff in Hf'. destruct Hf' as [H1 _].
+    apply fitsw_lt in H0, H1. change (256 ^ N.of_nat 4) with 4294967296 in H0, H1.
+    destruct (IH e1 et ltac:(lia) Hf) as (Ha & Hb & Hc).
+    change (ctts_pairs (e0 :: e1 :: et) (o :: ot)) with ((u32 (e1 + 4294967296 - e0), o) :: ctts_pairs (e1 :: et) ot).
+    cbn [C01Model.ctts_ends map snd].
+    assert (He : u32 (e0 + u32 (e1 + 4294967296 - e0)) = e1).
+    { unfold u32. destruct (N.le_gt_cases e0 e1).
+      - replace (e1 + 4294967296 - e0) with ((e1 - e0) + 1 * 4294967296) by lia.
+        rewrite N.mod_add by discriminate. rewrite (N.mod_small (e1 - e0)) by lia.
+        replace (e0 + (e1 - e0)) with e1 by lia. now apply N.mod_small.
+      - rewrite (N.mod_small (e1 + 4294967296 - e0)) by lia.
+        replace (e0 + (e1 + 4294967296 - e0)) with (e1 + 1 * 4294967296) by lia.
+        rewrite N.mod_add by discriminate. now apply N.mod_small. }
+    rewrite He, Ha, Hb. repeat split. rewrite !lenN_cons. lia.
+Qed.
+
+Lemma ctts_pairs_count_fits offs : forall es a b, In (a, b) (ctts_pairs es offs) -> fitsw 4 a = true.
+Proof.
+  induction offs as [|o ot IH]; intros es a b Hin; destruct es as [|x [|y es]]; try (now destruct Hin).
+  change (ctts_pairs (x :: y :: es) (o :: ot)) with ((u32 (y + 4294967296 - x), o) :: ctts_pairs (y :: es) ot) in Hin.
+  destruct Hin as [Hin|Hin].
+  - injection Hin as <- _. unfold fitsw, u32. apply N.ltb_lt. change (256 ^ N.of_nat 4) with 4294967296.
+    apply N.mod_lt. discriminate.
+  - exact (IH _ _ _ Hin).
+Qed.
+
+Lemma ppr_ctts v f ends offs : leaf_fits (LCtts v f ends offs) = true -> size_leaf (LCtts v f ends offs) < 4294967296 ->
+  ppr (mk_leaf (LCtts v f ends offs)) (mk_leaf (LCtts v f ends offs)).
+Proof.
+  intros Hfit Hsz. cbn [leaf_fits] in Hfit. split_fits Hfit. apply N.ltb_lt in Hf3. apply N.eqb_eq in Hf2, Hf1.
+  destruct (vf_split _ _ Hfit) as [Hv Hfl].
+  cbn [size_leaf] in Hsz. rewrite u32_small in Hsz by assumption.
+  destruct ends as [|e0 et]; [cbn in Hf1; discriminate|]. cbn [hd] in Hf1. subst e0.
+  rewrite lenN_cons in Hf2.
+  destruct (ctts_pairs_spec offs 0 et ltac:(lia) Hf0) as (Ha & Hb & Hc).
+  assert (Hbody : body_leaf (LCtts v f (0 :: et) offs) (dflt_rsv (LCtts v f (0 :: et) offs)) =
+                  Ok (be_enc 4 (vf_join v f) ++ be_enc 4 (lenN offs) ++ flat_map wr_pair (ctts_pairs (0 :: et) offs))).
+  { cbn [body_leaf]. rewrite lenN_cons. replace (1 + lenN et =? 1 + lenN offs) with true by (symmetry; apply N.eqb_eq; lia).
+    cbn [negb]. now rewrite wr_ctts_pairs. }
+  eapply (ppr_leaf _ _ dec_ctts _); try exact Hbody; try reflexivity.
+  - cbn [size_leaf]. rewrite u32_small by assumption. lia.
+  - cbn [size_leaf]. rewrite u32_small by assumption.
+    rewrite !lenN_app, !lenN_be_enc, (lenN_flat_map_const wr_pair 8) by apply lenN_wr_pair. rewrite Hc. lia.
+  - intros r2. unfold dec_ctts, pbind. cbn [h_size size_leaf]. rewrite u32_small by assumption.
+    rewrite <- !app_assoc. rewrite rd_enc by apply vf_join_lt.
+    rewrite rd_enc by (change (256 ^ N.of_nat 4) with 4294967296; lia).
+    rewrite N.eqb_refl. cbn [negb]. rewrite <- Hc.
+    rewrite (rd_many_print_P rd_pair wr_pair (fun p => (fitsw 4 (fst p) && fitsw 4 (snd p)) = true)).
+    + unfold pret. now rewrite Hv, Hfl, Ha, Hb.
+    + intros [a b] r Hab. cbn [fst snd] in Hab. apply andb_true_iff in Hab. destruct Hab as [Ha' Hb'].
+      unfold rd_pair, wr_pair, pbind. cbn [fst snd]. rewrite <- app_assoc.
+      rewrite !rd_enc by now apply fitsw_lt. reflexivity.
+    + apply Forall_forall. intros [a b] Hin. cbn [fst snd]. apply andb_true_iff. split.
+      * exact (ctts_pairs_count_fits _ _ _ _ Hin).
+      * assert (Hin' : In b (map snd (ctts_pairs (0 :: et) offs))) by (apply in_map_iff; now exists (a, b)).
+        rewrite Hb in Hin'. exact (proj1 (forallb_forall _ _) Hf b Hin').
+    + rewrite app_length. pose proof (flat_len_ge wr_pair 8 (ctts_pairs (0 :: et) offs) ltac:(lia)) as Hg.
+      assert (forall a, length (wr_pair a) = 8%nat) as H8
+        by (intros a; unfold wr_pair; now rewrite app_length, !length_be_enc).
+      specialize (Hg H8). lia.
+Qed.
+
+Lemma ppr_elst v f es : leaf_fits (LElst v f es) = true -> size_leaf (LElst v f es) < 4294967296 ->
+  ppr (mk_leaf (LElst v f es)) (mk_leaf (LElst v f es)).
+Proof.
+  intros Hfit Hsz. cbn [leaf_fits] in Hfit. split_fits Hfit. apply N.ltb_lt in Hf0. apply N.leb_le in Hf1.
+  destruct (vf_split _ _ Hfit) as [Hv Hfl].
+  cbn [size_leaf] in Hsz. rewrite u32_small in Hsz by assumption.
+  set (w := if v =? 1 then 8%nat else 4%nat) in *.
+  assert (Hww : forall e, lenN (wr_elst w e) = (if v =? 1 then 20 else 12)).
+  { intros e. rewrite lenN_wr_elst. unfold w. destruct (v =? 1); reflexivity. }
+  eapply (ppr_leaf _ _ dec_elst); try reflexivity.
+  - cbn [size_leaf]. rewrite u32_small by assumption. lia.
+  - cbn [size_leaf]. rewrite u32_small by assumption. fold w.
+    rewrite !lenN_app, !lenN_be_enc, (lenN_flat_map_const (wr_elst w) _ es Hww). lia.
+  - intros r2. unfold dec_elst, pbind. cbn [h_size size_leaf]. rewrite u32_small by assumption.
+    rewrite <- !app_assoc. rewrite rd_enc by apply vf_join_lt.
+    rewrite rd_enc by (change (256 ^ N.of_nat 4) with 4294967296; lia).
+    cbv zeta. rewrite Hv, Hfl. rewrite N.eqb_refl. cbn [negb].
+    replace (1 <? v) with false by (symmetry; apply N.ltb_ge; lia). fold w.
+    rewrite (rd_many_print_P (rd_elst w) (wr_elst w)
+               (fun e => match e with (d, t, ri, rf) => fitsw w d && fitsw w t && fitsw 2 ri && fitsw 2 rf end = true)).
+    + reflexivity.
+    + intros [[[d t] ri] rf] r He. split_fits He.
+      unfold rd_elst, wr_elst, pbind. rewrite <- !app_assoc. rewrite !rd_enc by now apply fitsw_lt. reflexivity.
+    + now apply forallb_Forall.
+    + rewrite app_length.
+      assert (Hw1 : (1 <= (if (v =? 1)%N then 20%nat else 12%nat))%nat) by (destruct (v =? 1); lia).
+      pose proof (flat_len_ge (wr_elst w) _ es Hw1) as Hg.
+      assert (forall a, length (wr_elst w a) = (if (v =? 1)%N then 20%nat else 12%nat)) as H8.
+      { intros [[[d t] ri] rf]. unfold wr_elst. rewrite !app_length, !length_be_enc. unfold w. destruct (v =? 1); reflexivity. }
+      specialize (Hg H8). lia.
+Qed.
+
+(* stsc *)
+Lemma wr_stsc_raw es single : forall ids, wr_stsc es single ids = flat_map wr_triple (stsc_raw es single ids).
+Proof.
+  induction es as [|[fc sp] t IH]; intros ids; [reflexivity|].
+  cbn [wr_stsc stsc_raw flat_map]. unfold wr_triple at 1. cbn [fst snd]. rewrite IH. now rewrite <- !app_assoc.
+Qed.
+Lemma stsc_raw_fst es single : forall ids, map fst (stsc_raw es single ids) = es.
+Proof. induction es as [|[fc sp] t IH]; intros ids; [reflexivity|]. cbn [stsc_raw map fst]. now rewrite IH. Qed.
+Lemma stsc_raw_len es single : forall ids, lenN (stsc_raw es single ids) = lenN es.
+Proof. induction es as [|[fc sp] t IH]; intros ids; [reflexivity|]. cbn [stsc_raw]. now rewrite !lenN_cons, IH. Qed.
+
+Lemma ppr_stsc v f es single ids : leaf_fits (LStsc v f es single ids) = true ->
+  size_leaf (LStsc v f es single ids) < 4294967296 ->
+  ppr (mk_leaf (LStsc v f es single ids)) (mk_leaf (leaf_as_decoded (LStsc v f es single ids))).
+Proof.
+  intros Hfit Hsz. cbn [leaf_fits] in Hfit. split_fits Hfit. apply N.ltb_lt in Hf3. apply negb_true_iff in Hf2.
+  destruct (vf_split _ _ Hfit) as [Hv Hfl]. cbn [size_leaf] in Hsz.
+  cbn [leaf_as_decoded].
+  destruct (stsc_ids 0 0 [] (stsc_written es single ids)) as [[s' i']|] eqn:Eids; [|discriminate].
+  assert (Hbody : body_leaf (LStsc v f es single ids) (dflt_rsv (LStsc v f es single ids)) =
+                  Ok (be_enc 4 (vf_join v f) ++ be_enc 4 (lenN es) ++ flat_map wr_triple (stsc_raw es single ids))).
+  { cbn [body_leaf]. rewrite Hf2. now rewrite wr_stsc_raw. }
+  eapply (ppr_leaf _ _ dec_stsc _); try exact Hbody; try reflexivity.
+  - cbn [size_leaf]. lia.
+  - cbn [size_leaf]. rewrite !lenN_app, !lenN_be_enc, (lenN_flat_map_const wr_triple 12) by apply lenN_wr_triple.
+    rewrite stsc_raw_len. lia.
+  - intros r2. unfold dec_stsc, pbind. cbn [h_size size_leaf].
+    rewrite <- !app_assoc. rewrite rd_enc by apply vf_join_lt.
+    rewrite rd_enc by (change (256 ^ N.of_nat 4) with 4294967296; lia).
+    rewrite N.eqb_refl. cbn [negb]. rewrite <- (stsc_raw_len es single ids).
+    rewrite (rd_many_print_P rd_triple wr_triple
+               (fun t => (fitsw 4 (fst (fst t)) && fitsw 4 (snd (fst t)) && fitsw 4 (snd t)) = true)).
+    + fold (stsc_written es single ids). rewrite Eids. unfold pret. now rewrite Hv, Hfl, stsc_raw_fst.
+    + intros [[a b] c] r Habc. cbn [fst snd] in Habc. split_fits Habc.
+      unfold rd_triple, wr_triple, pbind. cbn [fst snd]. rewrite <- !app_assoc.
+      rewrite !rd_enc by now apply fitsw_lt. reflexivity.
+    + apply Forall_forall. intros [[a b] c] Hin. cbn [fst snd].
+      assert (H1 : In (a, b) es) by (rewrite <- (stsc_raw_fst es single ids); apply in_map_iff; now exists (a, b, c)).
+      assert (H2 : In c (stsc_written es single ids)) by (apply in_map_iff; now exists (a, b, c)).
+      pose proof (proj1 (forallb_forall _ _) Hf1 _ H1) as Hab. cbn [fst snd] in Hab.
+      pose proof (proj1 (forallb_forall _ _) Hf0 _ H2) as Hc. now rewrite Hab, Hc.
+    + rewrite app_length. pose proof (flat_len_ge wr_triple 12 (stsc_raw es single ids) ltac:(lia)) as Hg.
+      assert (forall a, length (wr_triple a) = 12%nat) as H8
+        by (intros a; unfold wr_triple; now rewrite !app_length, !length_be_enc).
+      specialize (Hg H8). lia.
+Qed.
+
+(* mvhd / tkhd: the reserved places hold the encoder's values *)
+Lemma ppr_mvhd v f ct mt ts du rate vol nt : leaf_fits (LMvhd v f ct mt ts du rate vol nt) = true ->
+  ppr (mk_leaf (LMvhd v f ct mt ts du rate vol nt)) (mk_leaf (LMvhd v f ct mt ts du rate vol nt)).
+Proof.
+  intros Hfit. cbn [leaf_fits] in Hfit. split_fits Hfit. destruct (vf_split _ _ Hfit) as [Hv Hfl].
+  eapply (ppr_leaf _ _ dec_mvhd); try reflexivity.
+  - cbn [size_leaf]. destruct (v =? 1); lia.
+  - cbn [size_leaf body_leaf dflt_rsv chunk nth]. destruct (v =? 1); lensolve.
+  - intros r2. unfold dec_mvhd, pbind. cbn [chunk nth dflt_rsv]. rewrite <- !app_assoc.
+    rewrite rd_enc by apply vf_join_lt. cbv zeta. rewrite Hv, Hfl.
+    destruct (v =? 1); apply fitsw_lt in Hf, Hf0, Hf1, Hf2, Hf3, Hf4, Hf5;
+      rewrite !rd_enc by assumption;
+      rewrite (rdB_lit (zeros 10) 10) by apply lenN_zeros; rewrite (rdB_lit unity_matrix 36) by apply lenN_unity;
+      rewrite (rdB_lit (zeros 24) 24) by apply lenN_zeros; rewrite rd_enc by assumption; reflexivity.
+Qed.
+
+Lemma ppr_tkhd v f ct mt tid du layer ag vol wd ht : leaf_fits (LTkhd v f ct mt tid du layer ag vol wd ht) = true ->
+  ppr (mk_leaf (LTkhd v f ct mt tid du layer ag vol wd ht)) (mk_leaf (LTkhd v f ct mt tid du layer ag vol wd ht)).
+Proof.
+  intros Hfit. cbn [leaf_fits] in Hfit. split_fits Hfit. destruct (vf_split _ _ Hfit) as [Hv Hfl].
+  eapply (ppr_leaf _ _ dec_tkhd); try reflexivity.
+  - cbn [size_leaf]. destruct (v =? 1); lia.
+  - cbn [size_leaf body_leaf dflt_rsv chunk nth]. destruct (v =? 1); lensolve.
+  - intros r2. unfold dec_tkhd, pbind. cbn [chunk nth dflt_rsv]. rewrite <- !app_assoc.
+    rewrite rd_enc by apply vf_join_lt. cbv zeta. rewrite Hv, Hfl.
+    destruct (v =? 1); apply fitsw_lt in Hf, Hf0, Hf1, Hf2, Hf3, Hf4, Hf5, Hf6, Hf7;
+      rewrite !rd_enc by assumption;
+      rewrite (rdB_lit (zeros 4) 4) by apply lenN_zeros; rewrite rd_enc by assumption;
+      rewrite (rdB_lit (zeros 8) 8) by apply lenN_zeros; rewrite !rd_enc by assumption;
+      rewrite (rdB_lit (zeros 2) 2) by apply lenN_zeros; rewrite (rdB_lit unity_matrix 36) by apply lenN_unity;
+      rewrite !rd_enc by assumption; reflexivity.
+Qed.
+
+Definition rebuilt (l : leaf) : bool :=
+  match l with
+  | LStts _ _ _ | LCtts _ _ _ _ | LStsc _ _ _ _ _ | LStsz _ _ _ _ _ | LTab _ _ _ _ _ | LSdtp _ _ _ | LElst _ _ _
+  | LMvhd _ _ _ _ _ _ _ _ _ | LTkhd _ _ _ _ _ _ _ _ _ _ _ => true
+  | _ => false
+  end.
+Lemma ppr_rebuilt l : rebuilt l = true -> leaf_fits l = true -> size_leaf l < 4294967296 ->
+  ppr (mk_leaf l) (mk_leaf (leaf_as_decoded l)).
+Proof.
+  destruct l; try discriminate; intros _ Hf Hs.
+  - now apply ppr_mvhd. - now apply ppr_tkhd. - now apply ppr_stts. - now apply ppr_stsc. - now apply ppr_stsz.
+  - now apply ppr_tab. - now apply ppr_sdtp. - now apply ppr_ctts. - now apply ppr_elst.
+Qed.
+
+(* ---------------------------------------------------------------- decoded exact trees and their children *)
+Definition dx (t : mbox) : Prop :=
+  exists f bs rest, bytes_ok bs = true /\ decode_box f bs = Ok (t, rest) /\ exact_box t = true.
+
+Lemma dx_pp t : dx t -> pp t.
+Proof. intros (f & bs & rest & Hok & H & Hex). exact (pp_decoded f bs t rest Hok H Hex). Qed.
+
+Lemma dx_of_children f : forall tgt pos used bs cs r, bytes_ok bs = true ->
+  decode_children f tgt pos used bs = Ok (cs, r) -> forallb exact_box cs = true -> Forall dx cs.
+Proof.
+  induction f as [|f IH]; intros tgt pos used bs cs r Hok H Hex; [discriminate|].
+  cbn [decode_children] in H.
+  destruct (tgt <? pos); try discriminate.
+  destruct (pos =? tgt); [injection H as <- <-; constructor|].
+  destruct (decode_box f bs) as [[c r1]| | |] eqn:Eb; try discriminate.
+  destruct (negb (pos + size_box c =? used + (lenN bs - lenN r1))); try discriminate.
+  destruct (decode_children f tgt (pos + size_box c) (used + (lenN bs - lenN r1)) r1) as [[cs' r']| | |] eqn:Ec;
+    try discriminate.
+  injection H as <- <-. cbn [forallb] in Hex. apply andb_true_iff in Hex. destruct Hex as [Hc Hcs].
+  destruct (proj1 (tree_both f) _ _ _ Hok Eb Hc) as (_ & _ & _ & Hokr).
+  constructor; [now exists f, bs, r1|]. exact (IH _ _ _ _ _ _ Hokr Ec Hcs).
+Qed.
+
+Lemma dx_cont h cs : dx (MCont h cs) ->
+  Forall dx cs /\ (bytes_eqb (h_name h) n_edts = true -> edts_ok cs = true) /\
+  (bytes_eqb (h_name h) n_moov = true -> moov_stable_from is_trak_box [] cs = true).
+Proof.
+  intros (f & bs & rest & Hok & H & Hex). destruct f as [|f]; [discriminate|].
+  cbn [exact_box] in Hex.
+  apply andb_true_iff in Hex. destruct Hex as [Hex _].
+  apply andb_true_iff in Hex. destruct Hex as [Hex Hmoov].
+  apply andb_true_iff in Hex. destruct Hex as [_ Hcs].
+  cbn [decode_box] in H.
+  destruct (dec_hdr bs) as [[h0 r0]| | |] eqn:Eh; try discriminate.
+  destruct (dec_hdr_spec _ _ _ Hok Eh) as (Hokr0 & _).
+  destruct ((lenN r0 + h_len h0 <? h_size h0) && negb (bytes_eqb (h_name h0) n_mdat)); try discriminate.
+  destruct (lookup (h_name h0) leaf_table) as [d|].
+  { destruct (d h0 r0) as [[[l rsv] r']| | |]; discriminate. }
+  destruct (pre_lookup h0 r0) as [[d lk]|].
+  { destruct (d h0 r0) as [[[l rsv] r1]| | |]; try discriminate. destruct lk as [off|start].
+    - destruct (h_size h0 <? off); try discriminate.
+      destruct (decode_children f (h_size h0 - off) 0 0 r1) as [[cs0 r']| | |]; try discriminate.
+      destruct (pre_count_ok l (lenN cs0)); discriminate.
+    - destruct (decode_entries f (h_size h0) start r1) as [[cs0 r']| | |]; discriminate. }
+  destruct (cont_like h0 r0).
+  - destruct (decode_children f (h_size h0 - 8) 0 0 r0) as [[cs0 r']| | |] eqn:Ec; try discriminate.
+    destruct (bytes_eqb (h_name h0) n_edts && negb (edts_ok cs0)) eqn:Ee; try discriminate.
+    injection H as -> -> <-.
+    split; [exact (dx_of_children f _ _ _ _ _ _ Hokr0 Ec Hcs)|]. split.
+    + intros Hn. rewrite Hn in Ee. cbn [andb] in Ee. now apply negb_false_iff in Ee.
+    + intros Hn. rewrite Hn in Hmoov. exact Hmoov.
+  - destruct (rdB (payload_len h0) r0) as [[p r']| | |]; discriminate.
+Qed.
+
+(* ---------------------------------------------------------------- the rebuilt moov *)
+Notation vI := (fun l : leaf => l).
+Notation vU := (fun t : mbox => t).
+
+Lemma named_name n t : named n t = true -> box_name t = n.
+Proof. unfold named. apply bytes_eqb_eq. Qed.
+
+Lemma moov_stable_names cs cs' : map box_name cs' = map box_name cs ->
+  moov_stable_from is_trak_box [] cs' = moov_stable_from is_trak_box [] cs.
+Proof.
+  intros Hn. pose (g := fun c : mbox => (is_trak_box c, tt)).
+  rewrite <- (moov_stable_map is_trak_box g (fun a => eq_refl) cs' []).
+  rewrite <- (moov_stable_map is_trak_box g (fun a => eq_refl) cs []).
+  f_equal. unfold g, is_trak_box.
+  rewrite <- (map_map box_name (fun n => (bytes_eqb n n_trak, tt)) cs'), Hn, map_map. reflexivity.
+Qed.
+
+Lemma ppr_map_children (g g' : mbox -> mbox) cs :
+  Forall dx cs -> forallb enc_fits (map g cs) = true -> forallb tree_fits (map g cs) = true ->
+  (forall c, dx c -> enc_fits (g c) = true -> tree_fits (g c) = true -> ppr (g c) (g' c)) ->
+  Forall2 ppr (map g cs) (map g' cs).
+Proof.
+  intros Hdx He Ht Hg. induction Hdx as [|c t Hc _ IH]; [constructor|].
+  cbn [map forallb] in *. apply andb_true_iff in He, Ht. destruct He as [He1 He2], Ht as [Ht1 Ht2].
+  constructor; [now apply Hg|now apply IH].
+Qed.
+
+Lemma name_upd_cont g t : box_name (upd_cont vU g t) = box_name t.
+Proof. destruct t; reflexivity. Qed.
+
+Definition six_names : list (list N) := [n_moov; n_trak; n_mdia; n_minf; n_stbl; n_edts].
+
+Lemma ppr_upd_cont n g g' t : In n six_names -> named n t = true -> dx t ->
+  enc_fits (upd_cont vU g t) = true -> tree_fits (upd_cont vU g t) = true ->
+  (forall cs, Forall dx cs -> forallb enc_fits (g cs) = true -> forallb tree_fits (g cs) = true ->
+              Forall2 ppr (g cs) (g' cs)) ->
+  (forall cs, map box_name (g cs) = map box_name cs) ->
+  ppr (upd_cont vU g t) (upd_cont norm_box g' t).
+Proof.
+  intros Hin Hnm Hdx He Ht Hg Hnames. destruct t as [h l r|h cs|h p|h l r cs]; try exact (dx_pp _ Hdx).
+  apply named_name in Hnm. cbn [box_name] in Hnm. cbn [upd_cont] in *. rewrite Hnm in *.
+  destruct (dx_cont h cs Hdx) as (Hcs & Hedts & Hmoov). rewrite Hnm in Hedts, Hmoov.
+  unfold mk_cont in He, Ht. cbn [enc_fits tree_fits] in He, Ht.
+  apply andb_true_iff in He. destruct He as [Hsz He]. apply N.ltb_lt in Hsz.
+  specialize (Hg cs Hcs He Ht).
+  assert (Hside : lenN n = 4 /\ lookup n leaf_table = None /\ lookup n pre_table = None /\ is_cont n = true /\
+                  bytes_eqb n n_moof = false).
+  { unfold six_names in Hin. cbn [In] in Hin.
+    destruct Hin as [<-|[<-|[<-|[<-|[<-|[<-|[]]]]]]]; repeat split; reflexivity. }
+  destruct Hside as (H4 & Hl & Hp & Hc & Hm).
+  apply ppr_cont; try assumption.
+  - intros Hn. rewrite (moov_stable_names cs (g cs) (Hnames cs)). now apply Hmoov.
+  - intros Hn. rewrite (edts_ok_names cs (g cs) (Hnames cs)). now apply Hedts.
+Qed.
+
+Lemma fits_leaf l : enc_fits (mk_leaf l) = true -> leaf_large l = false -> size_leaf l < 4294967296.
+Proof. unfold mk_leaf. cbn [enc_fits]. intros H Hl. rewrite Hl in H. cbn [orb] in H. now apply N.ltb_lt. Qed.
+
+Ltac rebuilt_leaf :=
+  match goal with
+  | He : enc_fits (mk_leaf ?l) = true, Ht : tree_fits (mk_leaf ?l) = true |- ppr (mk_leaf ?l) _ =>
+      apply (ppr_rebuilt l eq_refl); [exact Ht|exact (fits_leaf l He eq_refl)]
+  end.
+
+Lemma ppr_put_table tb c : dx c -> enc_fits (put_table vI vU tb c) = true -> tree_fits (put_table vI vU tb c) = true ->
+  ppr (put_table vI vU tb c) (put_table leaf_as_decoded norm_box tb c).
+Proof.
+  intros Hdx He Ht. destruct c as [h l r|h cs|h p|h l r cs]; try exact (dx_pp _ Hdx).
+  destruct l; try exact (dx_pp _ Hdx); cbn [put_table] in *.
+  - rebuilt_leaf.
+  - rebuilt_leaf.
+  - rebuilt_leaf.
+  - match goal with |- context [match ?o with Some _ => _ | None => _ end] => destruct o end;
+      [rebuilt_leaf|exact (dx_pp _ Hdx)].
+  - match goal with |- context [match ?o with Some _ => _ | None => _ end] => destruct o end;
+      [rebuilt_leaf|exact (dx_pp _ Hdx)].
+  - match goal with |- context [match ?o with Some _ => _ | None => _ end] => destruct o end;
+      [rebuilt_leaf|exact (dx_pp _ Hdx)].
+Qed.
+
+Lemma name_put_table tb c : box_name (put_table vI vU tb c) = box_name c.
+Proof.
+  destruct c as [h l r|h cs|h p|h l r cs]; try reflexivity. destruct l; try reflexivity; cbn [put_table].
+  - match goal with |- context [match ?o with Some _ => _ | None => _ end] => destruct o end; reflexivity.
+  - match goal with |- context [match ?o with Some _ => _ | None => _ end] => destruct o end; reflexivity.
+  - match goal with |- context [match ?o with Some _ => _ | None => _ end] => destruct o end; reflexivity.
+Qed.
+
+Lemma names_map (g : mbox -> mbox) cs : (forall c, box_name (g c) = box_name c) -> map box_name (map g cs) = map box_name cs.
+Proof. intros H. rewrite map_map. apply map_ext. exact H. Qed.
+
+Lemma ppr_set_tkhd nd c : dx c -> enc_fits (set_tkhd_dur vI vU nd c) = true -> tree_fits (set_tkhd_dur vI vU nd c) = true ->
+  ppr (set_tkhd_dur vI vU nd c) (set_tkhd_dur leaf_as_decoded norm_box nd c).
+Proof.
+  intros Hdx He Ht. destruct c as [h l r|h cs|h p|h l r cs]; try exact (dx_pp _ Hdx).
+  destruct l; try exact (dx_pp _ Hdx); cbn [set_tkhd_dur] in *. rebuilt_leaf.
+Qed.
+Lemma ppr_set_mvhd nd c : dx c -> enc_fits (set_mvhd_dur vI vU nd c) = true -> tree_fits (set_mvhd_dur vI vU nd c) = true ->
+  ppr (set_mvhd_dur vI vU nd c) (set_mvhd_dur leaf_as_decoded norm_box nd c).
+Proof.
+  intros Hdx He Ht. destruct c as [h l r|h cs|h p|h l r cs]; try exact (dx_pp _ Hdx).
+  destruct l; try exact (dx_pp _ Hdx); cbn [set_mvhd_dur] in *. rebuilt_leaf.
+Qed.
+Lemma name_set_tkhd nd c : box_name (set_tkhd_dur vI vU nd c) = box_name c.
+Proof. destruct c as [h l r|h cs|h p|h l r cs]; try reflexivity. destruct l; reflexivity. Qed.
+Lemma name_set_mvhd nd c : box_name (set_mvhd_dur vI vU nd c) = box_name c.
+Proof. destruct c as [h l r|h cs|h p|h l r cs]; try reflexivity. destruct l; reflexivity. Qed.
+
+Lemma ppr_put_elsts cs : forall gs, Forall dx cs ->
+  forallb enc_fits (put_elsts vI vU gs cs) = true -> forallb tree_fits (put_elsts vI vU gs cs) = true ->
+  Forall2 ppr (put_elsts vI vU gs cs) (put_elsts leaf_as_decoded norm_box gs cs).
+Proof.
+  induction cs as [|c t IH]; intros gs Hdx He Ht; [constructor|].
+  inversion Hdx as [|? ? Hc Hdt]; subst.
+  assert (Hdef : forall gs', forallb enc_fits (put_elsts vI vU gs' t) = true ->
+                             forallb tree_fits (put_elsts vI vU gs' t) = true ->
+            Forall2 ppr (c :: put_elsts vI vU gs' t) (norm_box c :: put_elsts leaf_as_decoded norm_box gs' t)).
+  { intros gs' He' Ht'. constructor; [exact (dx_pp _ Hc)|now apply IH]. }
+  destruct c as [h l r|h cs|h p|h l r cs]; cbn [put_elsts forallb] in *;
+    try (apply andb_true_iff in He, Ht; destruct He as [_ He], Ht as [_ Ht]; now apply Hdef).
+  destruct l; try (apply andb_true_iff in He, Ht; destruct He as [_ He], Ht as [_ Ht]; now apply Hdef).
+  destruct gs as [|g gt]; cbn [forallb] in *; apply andb_true_iff in He, Ht; destruct He as [He1 He], Ht as [Ht1 Ht];
+    [now apply Hdef|].
+  constructor; [rebuilt_leaf|now apply IH].
+Qed.
+Lemma names_put_elsts cs : forall gs, map box_name (put_elsts vI vU gs cs) = map box_name cs.
+Proof.
+  induction cs as [|c t IH]; intros gs; [reflexivity|].
+  destruct c as [h l r|h cs|h p|h l r cs]; cbn [put_elsts map]; try (now rewrite IH).
+  destruct l; cbn [put_elsts map]; try (now rewrite IH). destruct gs; cbn [put_elsts map]; now rewrite IH.
+Qed.
+
+Lemma in_six n : In n six_names <-> (n = n_moov \/ n = n_trak \/ n = n_mdia \/ n = n_minf \/ n = n_stbl \/ n = n_edts).
+Proof. unfold six_names. cbn [In]. intuition. Qed.
+
+(* stbl *)
+Lemma ppr_stbl tb t : named n_stbl t = true -> dx t ->
+  enc_fits (upd_cont vU (map (put_table vI vU tb)) t) = true -> tree_fits (upd_cont vU (map (put_table vI vU tb)) t) = true ->
+  ppr (upd_cont vU (map (put_table vI vU tb)) t) (upd_cont norm_box (map (put_table leaf_as_decoded norm_box tb)) t).
+Proof.
+  intros Hn Hdx He Ht. apply (ppr_upd_cont n_stbl); try assumption; [apply in_six; tauto| |].
+  - intros cs Hcs He' Ht'. apply ppr_map_children; try assumption. intros c. apply ppr_put_table.
+  - intros cs. apply names_map. apply name_put_table.
+Qed.
+
+(* a level whose only rewritten child is the one named n *)
+Lemma ppr_named_level n m (F F' : mbox -> mbox) t :
+  In n six_names -> named n t = true -> dx t ->
+  (forall c, named m c = true -> dx c -> enc_fits (F c) = true -> tree_fits (F c) = true -> ppr (F c) (F' c)) ->
+  (forall c, box_name (F c) = box_name c) ->
+  enc_fits (upd_cont vU (upd_named vU m F) t) = true -> tree_fits (upd_cont vU (upd_named vU m F) t) = true ->
+  ppr (upd_cont vU (upd_named vU m F) t) (upd_cont norm_box (upd_named norm_box m F') t).
+Proof.
+  intros Hin Hn Hdx HF HnF He Ht. apply (ppr_upd_cont n); try assumption.
+  - intros cs Hcs He' Ht'. unfold upd_named in *. apply ppr_map_children; try assumption.
+    intros c Hc Hec Htc. destruct (named m c) eqn:Em; [now apply HF|exact (dx_pp _ Hc)].
+  - intros cs. unfold upd_named. apply names_map. intros c. destruct (named m c); [apply HnF|reflexivity].
+Qed.
+
+Definition minf_enc tb := upd_cont vU (upd_named vU n_stbl (upd_cont vU (map (put_table vI vU tb)))).
+Definition minf_dec tb := upd_cont norm_box (upd_named norm_box n_stbl (upd_cont norm_box (map (put_table leaf_as_decoded norm_box tb)))).
+Lemma ppr_minf tb t : named n_minf t = true -> dx t -> enc_fits (minf_enc tb t) = true -> tree_fits (minf_enc tb t) = true ->
+  ppr (minf_enc tb t) (minf_dec tb t).
+Proof.
+  intros Hn Hdx He Ht. apply (ppr_named_level n_minf n_stbl); try assumption; [apply in_six; tauto| |].
+  - intros c Hc Hd. now apply ppr_stbl.
+  - intros c. apply name_upd_cont.
+Qed.
+
+Definition mdia_enc tb := upd_cont vU (upd_named vU n_minf (minf_enc tb)).
+Definition mdia_dec tb := upd_cont norm_box (upd_named norm_box n_minf (minf_dec tb)).
+Lemma ppr_mdia tb t : named n_mdia t = true -> dx t -> enc_fits (mdia_enc tb t) = true -> tree_fits (mdia_enc tb t) = true ->
+  ppr (mdia_enc tb t) (mdia_dec tb t).
+Proof.
+  intros Hn Hdx He Ht. apply (ppr_named_level n_mdia n_minf); try assumption; [apply in_six; tauto| |].
+  - intros c Hc Hd. now apply ppr_minf.
+  - intros c. apply name_upd_cont.
+Qed.
+
+Lemma ppr_edts gs t : named n_edts t = true -> dx t ->
+  enc_fits (upd_cont vU (put_elsts vI vU gs) t) = true -> tree_fits (upd_cont vU (put_elsts vI vU gs) t) = true ->
+  ppr (upd_cont vU (put_elsts vI vU gs) t) (upd_cont norm_box (put_elsts leaf_as_decoded norm_box gs) t).
+Proof.
+  intros Hn Hdx He Ht. apply (ppr_upd_cont n_edts); try assumption; [apply in_six; tauto| |].
+  - intros cs Hcs He' Ht'. now apply ppr_put_elsts.
+  - intros cs. apply names_put_elsts.
+Qed.
+
+(* trak *)
+Lemma upd_trak_enc tb nd md ed t :
+  upd_trak vI vU tb (nd, md, ed) t =
+  upd_cont vU (map (fun c => if named n_tkhd c then set_tkhd_dur vI vU nd c
+                             else if named n_edts c then upd_cont vU (put_elsts vI vU (match ed with Some gs => gs | None => [] end)) c
+                             else if named n_mdia c then mdia_enc tb c else c)) t.
+Proof. reflexivity. Qed.
+Lemma upd_trak_dec tb nd md ed t :
+  upd_trak leaf_as_decoded norm_box tb (nd, md, ed) t =
+  upd_cont norm_box (map (fun c => if named n_tkhd c then set_tkhd_dur leaf_as_decoded norm_box nd c
+                             else if named n_edts c then upd_cont norm_box (put_elsts leaf_as_decoded norm_box (match ed with Some gs => gs | None => [] end)) c
+                             else if named n_mdia c then mdia_dec tb c else norm_box c)) t.
+Proof. reflexivity. Qed.
+
+Lemma ppr_trak tb x t : named n_trak t = true -> dx t ->
+  enc_fits (upd_trak vI vU tb x t) = true -> tree_fits (upd_trak vI vU tb x t) = true ->
+  ppr (upd_trak vI vU tb x t) (upd_trak leaf_as_decoded norm_box tb x t).
+Proof.
+  destruct x as [[nd md] ed]. rewrite upd_trak_enc, upd_trak_dec. intros Hn Hdx He Ht.
+  apply (ppr_upd_cont n_trak); try assumption; [apply in_six; tauto| |].
+  - intros cs Hcs He' Ht'. apply ppr_map_children; try assumption.
+    intros c Hc Hec Htc.
+    destruct (named n_tkhd c); [now apply ppr_set_tkhd|].
+    destruct (named n_edts c) eqn:Ee; [now apply ppr_edts|].
+    destruct (named n_mdia c) eqn:Em; [now apply ppr_mdia|]. exact (dx_pp _ Hc).
+  - intros cs. apply names_map. intros c.
+    destruct (named n_tkhd c); [apply name_set_tkhd|].
+    destruct (named n_edts c); [apply name_upd_cont|].
+    destruct (named n_mdia c); [apply name_upd_cont|reflexivity].
+Qed.
+Lemma name_upd_trak tb x t : box_name (upd_trak vI vU tb x t) = box_name t.
+Proof. destruct x as [[nd md] ed]. rewrite upd_trak_enc. apply name_upd_cont. Qed.
+
+(* moov *)
+Lemma ppr_moov_children nd cs : forall xs, Forall dx cs ->
+  forallb enc_fits (upd_moov_children vI vU nd xs cs) = true -> forallb tree_fits (upd_moov_children vI vU nd xs cs) = true ->
+  Forall2 ppr (upd_moov_children vI vU nd xs cs) (upd_moov_children leaf_as_decoded norm_box nd xs cs).
+Proof.
+  induction cs as [|c t IH]; intros xs Hdx He Ht; [constructor|].
+  inversion Hdx as [|? ? Hc Hdt]; subst. cbn [upd_moov_children] in *.
+  destruct (named n_trak c) eqn:Etr.
+  - destruct xs as [|[tb x] xt]; cbn [forallb] in *; apply andb_true_iff in He, Ht;
+      destruct He as [He1 He], Ht as [Ht1 Ht].
+    + constructor; [exact (dx_pp _ Hc)|now apply IH].
+    + constructor; [now apply ppr_trak|now apply IH].
+  - cbn [forallb] in *. apply andb_true_iff in He, Ht. destruct He as [He1 He], Ht as [Ht1 Ht].
+    constructor; [|now apply IH].
+    destruct (named n_mvhd c); [now apply ppr_set_mvhd|exact (dx_pp _ Hc)].
+Qed.
+Lemma names_moov_children nd cs : forall xs, map box_name (upd_moov_children vI vU nd xs cs) = map box_name cs.
+Proof.
+  induction cs as [|c t IH]; intros xs; [reflexivity|]. cbn [upd_moov_children].
+  destruct (named n_trak c).
+  - destruct xs as [|[tb x] xt]; cbn [map]; rewrite IH; [reflexivity|now rewrite name_upd_trak].
+  - cbn [map]. rewrite IH. destruct (named n_mvhd c); [now rewrite name_set_mvhd|reflexivity].
+Qed.
+
+(* the moov mp4ff-crop encodes prints and parses: decoding its bytes gives out_moov_decoded *)
+Lemma ppr_out_moov nd xs moov : named n_moov moov = true -> dx moov ->
+  enc_fits (out_moov nd xs moov) = true -> tree_fits (out_moov nd xs moov) = true ->
+  ppr (out_moov nd xs moov) (out_moov_decoded nd xs moov).
+Proof.
+  unfold out_moov, out_moov_decoded, out_moov_g. intros Hn Hdx He Ht.
+  apply (ppr_upd_cont n_moov); try assumption; [apply in_six; tauto| |].
+  - intros cs Hcs He' Ht'. now apply ppr_moov_children.
+  - intros cs. apply names_moov_children.
 Qed.
